@@ -17,6 +17,7 @@
 
 #include <errno.h>
 #include <stdlib.h>
+#include <stdint.h>
 #include <string.h>
 
 size_t libwifi_add_action_detail(struct libwifi_action_detail *detail, const unsigned char *data,
@@ -25,6 +26,11 @@ size_t libwifi_add_action_detail(struct libwifi_action_detail *detail, const uns
     // which still sees a zero detail_length
     if (data_len == 0) {
         return detail->detail_length;
+    }
+
+    // The running detail length is kept in a single octet
+    if (data_len + detail->detail_length > UINT8_MAX) {
+        return -EINVAL;
     }
 
     // Keep the existing detail if it cannot be extended
